@@ -88,6 +88,13 @@ type row struct {
 // equally named tables with different schemas (what one database knows about t must never serve the other)
 // ident writes a database name as SQL: a name that is not a plain identifier goes in double quotes
 func ident(n string) string {
+	// two names that are equal under Unicode case folding and different in lower case: different databases
+	switch n {
+	case "mu1":
+		return "\u00b5s" // micro sign
+	case "mu2":
+		return "\u03bcs" // Greek small mu
+	}
 	for i, c := range n {
 		if !(c == '_' || c >= 'a' && c <= 'z' || c >= 'A' && c <= 'Z' || i > 0 && c >= '0' && c <= '9') {
 			return `"` + n + `"`
@@ -141,7 +148,14 @@ func (w *world) show() (names []string, err error) {
 		return nil, err
 	}
 	for _, r := range rows {
-		names = append(names, fmt.Sprint(r.Vals[0]))
+		n := fmt.Sprint(r.Vals[0])
+		switch n {
+		case "\u00b5s":
+			n = "mu1"
+		case "\u03bcs":
+			n = "mu2"
+		}
+		names = append(names, n)
 	}
 	sort.Strings(names)
 	return names, nil
